@@ -142,5 +142,8 @@ var c16PRF = probe.Define("C16", "prf-prime", func(t *rapid.T) c16In {
 
 func TestC16(t *testing.T) {
 	c := probe.NewCtx(t, "C16")
+	if c.Shard == 0 {
+		endurance(c, "C16", "prf-prime", 70000)
+	}
 	c16PRF.Run(c, t, c.N(5000, 60000))
 }
